@@ -34,6 +34,44 @@ def check_total(c, r, ck, want_err=None):
     return None
 
 
+def open_bracket_errors(ck, tier, calc):
+    """a line that is rejected while a brace or bracket of it is still open (and never closed): one report, and the lines after it are read
+    as statements of their own, each run exactly once (file mode and piped REPL, real binary)"""
+    import re as _re
+    tmpdir = tempfile.mkdtemp(prefix="c06b-", dir=vlib.scratch())
+    bads = ["a = [1, 2 $", "a = [1, [2, 3 ?", "f = (x) -> { $", "if true { ?", "x = {1 $ 2", "a = [\"s\", 1 $", "g(1, [2 $", "a = [1, 2 $ ; note", "a = [1, \u00e9"]
+    n = 0
+    for b in bads:
+        for tail in (['write("after\\n")', "b = [3,", "4]", "write(toa(b))", 'write("\\nend")'], ['write("after\\n")', 'c = "two', 'lines"', "write(c)", 'write("\\nend")'], ['write("after\\n")', "}", 'write("\\nend")']):
+            script = "\n".join(['write("before\\n")', b] + tail) + "\n"
+            for mode in ("file", "repl"):
+                path = os.path.join(tmpdir, "ob.calc")
+                with open(path, "w") as f:
+                    f.write(script)
+                try:
+                    p = subprocess.run([calc, path] if mode == "file" else [calc], input=None if mode == "file" else script, capture_output=True, text=True, timeout=120, stdin=subprocess.DEVNULL if mode == "file" else None)
+                except subprocess.TimeoutExpired:
+                    raise vlib.Infra("calc binary timed out on a small script")
+                n += 1
+                ck.cov["evaluations"] += 1
+                ck.cov["traces_validated_against_impl"] += 1
+                out = p.stdout
+                what = None
+                if p.returncode != 0:
+                    what = "the interpreter aborted (exit %d): %s" % (p.returncode, p.stderr[:200])
+                elif out.count("before\n") != 1 or out.count("after\n") != 1 or out.count("\nend") != 1 or out.find("before") > out.find("after") or out.find("after") > out.find("end"):
+                    what = "the lines around the rejected one did not run exactly once, in order"
+                elif len(_re.findall(r"Parser:|Lexer:", out[:out.find("after")])) != 1:
+                    what = "%d reports for the rejected line" % len(_re.findall(r"Parser:|Lexer:", out[:out.find("after")]))
+                elif "b = [3," in script and "[3, 4]" not in out:
+                    what = "the array literal spanning two lines after it was not evaluated"
+                elif 'c = "two' in script and "two\nlines" not in out:
+                    what = "the string literal spanning two lines after it was not evaluated"
+                if what:
+                    ck.violation("%s mode, a rejected line with an open bracket (%r): %s: output %r" % (mode, b, what, out[:300]), {"open_bracket": {"line": b, "tail": tail, "mode": mode}, "stdout": out[:1000]})
+    ck.part("rejected lines with a bracket still open, then ordinary and multi-line statements (real binary)", scripts=n)
+
+
 def long_lines(ck, tier, calc, only=None):
     # ---- physical lines of any length through the line reader and the read-eval loop of file mode (the real binary): a long line is
     # parsed and run, or rejected with one report, and the lines around it run exactly once either way
@@ -91,6 +129,9 @@ def run(tier, replay=None):
     rnd = random.Random(seed)
     if replay:
         case = json.load(open(replay))["case"]
+        if "open_bracket" in case:
+            open_bracket_errors(ck, tier, vlib.build_calc())
+            return ck.finish()
         if "long_line" in case:
             long_lines(ck, tier, vlib.build_calc(), only=case["long_line"])
             return ck.finish()
@@ -235,6 +276,7 @@ def run(tier, replay=None):
         if p.returncode not in (0, 1) or "panic" in p.stderr or "goroutine" in p.stderr:
             ck.violation("-eval aborted on %r: %s" % (b, p.stderr[:300]), {"eval": b, "stderr": p.stderr[:2000]})
     long_lines(ck, tier, calc)
+    open_bracket_errors(ck, tier, calc)
     ck.cov["distinct_nontrivial"] = len(nontriv)
     ck.cov["rule"] = ("all class strings <= %d over 11 character classes (TLC-enumerated, accept/reject from Lexer.tla), token strings <= %d over 27 tokens, literal-length classes, "
                       "unterminated/unbalanced/edge inputs, nesting ladders to depth 10k, seeded random character strings and mutated valid programs; non-trivial = the parser "
